@@ -41,7 +41,7 @@ def gen_call(rng, case, kind):
         types = ["Boom", "Boom2", "ValueError", "KeyError"]
         call["fail"] = {str(i): [rng.choice(types), "t%d" % j] for j, i in enumerate(idx)}
     elif kind == "iterfail":
-        call["iter_fail"] = rng.randint(0, n)
+        call["iter_fail"] = rng.randint(0, n) if rng.random() < 0.8 else -1      # -1: iter(iterable) itself raises
     elif kind == "never":
         if n == 0:
             call["n"] = n = rng.randint(1, 6); call["dur"] = pc.gen_durations(rng, n)
